@@ -5,6 +5,7 @@
 //! stdin, one scenario per line:
 //!   <idx> <kind> <named> <holder> <sup> | <script> | <op> ; <op> ; ...
 //!     kind   0 spawn  1 spawn_linked  2 spawn_instant  3 spawn_linked_instant
+//!            8 ActorCell::spawn_linked   9 spawn_linked_remote with a LOCAL id (refused before anything exists)
 //!            4..7 the same four through the thread-local API (ThreadLocalActor::spawn*, spawn_local,
 //!            ActorCell::spawn_local_linked) on a ThreadLocalActorSpawner with its own OS thread
 //!     named  0|1      holder 0|1 (another running actor already owns the name)
@@ -204,7 +205,7 @@ async fn settle() {
 /// FIFO fence through the spawner's request queue and local task queue
 #[derive(Default)]
 struct Fence;
-impl Actor for Fence {
+impl ThreadLocalActor for Fence {
     type Msg = ();
     type State = ();
     type Arguments = ();
@@ -250,7 +251,7 @@ fn start_watchdog() {
 }
 
 async fn fence(spawner: &ThreadLocalActorSpawner) {
-    match <Fence as ThreadLocalActor>::spawn(None, (), spawner.clone()).await {
+    match Fence::spawn(None, (), spawner.clone()).await {
         Ok((r, h)) => {
             r.stop(None);
             let _ = h.await;
@@ -458,7 +459,7 @@ async fn run_scenario(line: &str) -> String {
         res: Arc::new(Mutex::new(None)),
         starter: None,
         existed: false,
-        spawner: if kind.parse::<u8>().unwrap_or(0) >= 4 { Some(ThreadLocalActorSpawner::new()) } else { None },
+        spawner: if (4..=7).contains(&kind.parse::<u8>().unwrap_or(0)) { Some(ThreadLocalActorSpawner::new()) } else { None },
         release: None,
         blocker: None,
     };
@@ -512,12 +513,32 @@ async fn run_scenario(line: &str) -> String {
                             Err(_) => *res.lock().unwrap() = Some(false),
                         }
                     }
-                    "0" | "1" => {
+                    "9" => {
+                        // spawn_linked_remote refuses a local id before anything is created
+                        let sh2 = sh.clone();
+                        let nm = name.clone();
+                        let h = tokio::spawn(async move {
+                            let r = ractor::ActorRuntime::<A>::spawn_linked_remote(
+                                nm,
+                                A,
+                                ActorId::Local(4_000_000_000),
+                                sh2,
+                                supc.expect("sup"),
+                            )
+                            .await;
+                            *res.lock().unwrap() = Some(r.is_ok());
+                        });
+                        w.starter = Some(h.abort_handle());
+                    }
+                    "0" | "1" | "8" => {
                         let sh2 = sh.clone();
                         let nm = name.clone();
                         let linked = kind == "1";
+                        let via_cell = kind == "8";
                         let h = tokio::spawn(async move {
-                            let r = if linked {
+                            let r = if via_cell {
+                                supc.expect("sup").spawn_linked(nm, A, sh2).await
+                            } else if linked {
                                 Actor::spawn_linked(nm, A, sh2, supc.expect("sup")).await
                             } else {
                                 Actor::spawn(nm, A, sh2).await
